@@ -192,8 +192,11 @@ EndViol(st, e) ==
      : n \in (IF Has(exp, "policies") THEN DOMAIN exp.policies ELSE {})}
   \cup (IF Has(exp, "max_transient_failures") THEN
           LET eithers == {n \in DOMAIN exp.policies : exp.policies[n].eval = "either"}
-              bad == {n \in eithers : n \notin names \/ AcceptAtoms(Get(st.eph, n), "inet", d) # ToSet(Pol(exp, n).v4)
-                                                      \/ AcceptAtoms(Get(st.eph, n), "inet6", d) # ToSet(Pol(exp, n).v6)}
+              (* left out altogether; one that is installed is judged on its own above (whole, or - where the error  *)
+              (* is one the evaluator sinks - without that family).  How many policies share a sunk error is not     *)
+              (* judged: an agent may hand the successful evaluation of an expression to the other policies that      *)
+              (* carry the same expression, which the property does not forbid                                        *)
+              bad == {n \in eithers : n \notin names}
           IN IF Cardinality(bad) > exp.max_transient_failures
              THEN {V(exp.prop, "MoreEvaluationsAffectedThanErrorsInjected",
                      "policies with the same expression, one transient IRR error", e)} ELSE {}
